@@ -16,6 +16,7 @@ import Driver.E2E
 import Driver.MD
 import Driver.FX
 import Driver.FA
+import Driver.WI
 /-!
 Line-protocol driver: one operation per input line, one observation per output line:
 `<model observation>\t<spec observation>`.  First token selects the component.
@@ -41,6 +42,7 @@ structure All where
   md : MD.St := {}
   fx : FX.St := {}
   fa : FA.St := {}
+  wi : WI.St := {}
 
 def stepAll (s : All) (line : String) : All × String :=
   match (line.trimAscii.toString.splitOn " ").filter (· ≠ "") with
@@ -92,6 +94,9 @@ def stepAll (s : All) (line : String) : All × String :=
   | "fx" :: args =>
       let (c, a, b) := FX.step s.fx args
       ({ s with fx := c }, a ++ "\t" ++ b)
+  | "wi" :: args =>
+      let (c, a, b) := WI.step s.wi args
+      ({ s with wi := c }, a ++ "\t" ++ b)
   | "fa" :: args =>
       let (c, a, b) := FA.step s.fa args
       ({ s with fa := c }, a ++ "\t" ++ b)
